@@ -878,8 +878,13 @@ def load_corpus():
 
 def width_sweep_case(tier):
     # handled by dedicated ops W* in both drivers: exhaustive comparison of _width_equiv / _zero_padded
-    hi = 300 if tier == "quick" else 3000
-    return [("WS", 0, hi, 0, hi), ("WS", 990, 1010, 0, 120), ("WS", 9990, 10010, 95, 105), ("WS", 33554425, 33554440, 0, 20)]
+    # (n range, m range; widths 0..6 on both sides).  The extracted model does ~0.7M evaluations/s: the thorough sweep
+    # (n, m < 3000: 441M evaluations) is cut into slices of the n range that run concurrently
+    if tier == "quick":
+        return [("WS", 0, 300, 0, 300), ("WS", 990, 1010, 0, 120), ("WS", 9990, 10010, 95, 105), ("WS", 33554425, 33554440, 0, 20)]
+    step = 200
+    return ([("WS", lo, min(lo + step, 3000), 0, 3000) for lo in range(0, 3000, step)]
+            + [("WS", 990, 1010, 0, 120), ("WS", 9990, 10010, 95, 105), ("WS", 33554425, 33554440, 0, 20)])
 
 
 def build(ctx):
@@ -977,7 +982,7 @@ def run(ctx, V):
               "prefixes, suffix after bracket, 62-81 character names, MAX_RANGE-1..+1, MAX_RANGES-1..+1, 1021-1030 byte tokens, malformed "
               "expressions) + the conf_exp_aliases iterator pattern + compress/expand round trips + corpus; a case is non-trivial if some "
               "state holds a range of more than one host or the case ends in a refusal / non-Ok outcome; distinct = distinct op lists")
-    n = 1500 if quick else 40000
+    n = 1500 if quick else 24000
     cases = load_corpus() + generate(ctx.rng, n)
     t0 = time.time()
     nv, nd = 0, 0
@@ -1008,17 +1013,33 @@ def run(ctx, V):
 
 def sweep(ctx, V, impl, model):
     lines = ["WS %d %d %d %d" % t[1:] for t in width_sweep_case(ctx.tier)]
-    text = "case ws 120000\n" + "\n".join(lines) + "\nend\n"
-    a = run_batch(impl, text, env=ASAN_ENV, nproc=1)
-    b = run_batch(model, text, nproc=1)
-    la = [l for l in a.split("\n") if l.startswith("r ")]
-    lb = [l for l in b.split("\n") if l.startswith("r ")]
-    if la != lb or len(la) != len(lines):
-        V.tie_broken("correspondence", "R-HL:_width_equiv", "exhaustive sweep of _width_equiv/_zero_padded differs: implementation %s model %s" % (la, lb), case=lines)
+    import threading
+    la, lb = [None] * len(lines), [None] * len(lines)
+
+    def work(i, l):
+        text = "case ws%d 1500000\n%s\nend\n" % (i, l)
+        a = run_batch(impl, text, env=ASAN_ENV, nproc=1, timeout=1500)
+        b = run_batch(model, text, nproc=1, timeout=1500)
+        la[i] = [x for x in a.split("\n") if x.startswith("r ")]
+        lb[i] = [x for x in b.split("\n") if x.startswith("r ")]
+    sem = threading.Semaphore(15)
+
+    def guarded(i, l):
+        with sem:
+            work(i, l)
+    th = [threading.Thread(target=guarded, args=(i, l)) for i, l in enumerate(lines)]
+    for t in th:
+        t.start()
+    for t in th:
+        t.join()
+    bad = [i for i in range(len(lines)) if la[i] != lb[i] or not la[i] or len(la[i]) != 1]
+    if bad:
+        i = bad[0]
+        V.tie_broken("correspondence", "R-HL:_width_equiv", "exhaustive sweep of _width_equiv/_zero_padded differs on `%s`: implementation %s model %s" % (lines[i], la[i], lb[i]), case=[lines[i]])
         return dict(ok=False)
-    total = sum(int(l.split()[1]) for l in la)
+    total = sum(int(l[0].split()[1]) for l in la)
     V.count("width_equiv_evaluations", total)
-    return dict(ok=True, evaluations=total, hashes=[l.split()[2] for l in la])
+    return dict(ok=True, evaluations=total, slices=len(lines), hashes=[l[0].split()[2] for l in la][:8])
 
 
 def replay(ctx, V, path):
